@@ -31,9 +31,9 @@ type For struct {
 
 // C is one cmds entry.
 type C struct {
-	Exit        int  // exit code of the probe (0 = success)
+	Exit int // exit code of the probe (0 = success)
 	// ExitVar: the exit code is the value of this (call) variable instead of Exit
-	ExitVar string
+	ExitVar     string
 	IgnoreError bool // cmd-level ignore_error
 	Call        *Ref // task call instead of a probe
 	Defer       bool
@@ -783,7 +783,6 @@ func Instances(ev []PE) (map[Inst][]PE, []Inst) {
 	}
 	return m, order
 }
-
 
 // ExitOf: the exit code of probe entry j of instance in.
 func (pg *Prog) ExitOf(in Inst, j int) int {
